@@ -1,4 +1,5 @@
 import Generated.TracedGeom
+import Properties.C20
 /-! S2 bridge for `geometry.to_cartesian` / `to_spherical` (C20): traced from the source (with `np.sin`, `np.cos`, `np.sqrt`,
 `np.arctan2`, `np.arccos` symbolic) = the model the round-trip and convention theorems are about. -/
 noncomputable section
@@ -7,5 +8,27 @@ namespace ModelR.Geom
 theorem traced_toCartesian_eq (φ θ r : ℝ) : traced_toCartesian φ θ r = toCartesian φ θ r := rfl
 
 theorem traced_toSpherical_eq (x y z : ℝ) : traced_toSpherical x y z = toSpherical x y z := rfl
+
+/-! `geometry.poles`, re-derived from the source for ONE symbolic orientation and a symbolic crystal direction, under each of
+the six documented reference-axes strings: the traced arithmetic (transpose, contraction with `hkl`, row norm, which component
+is handed out as x, y, z) is the model's `poles` on the singleton list.  (The string handling — `lower`, the set difference,
+`pop`, the dictionary — is the hand model `ModelD.RefAxes`, tied by correspondence.) -/
+
+open ModelD.RefAxes ModelR.C20 in
+theorem traced_poles_eq (a : Mat3) (h : Vec3) :
+    poles [a] "xy" h = .ok [((traced_poles_xy a h).1, (traced_poles_xy a h).2.1, some (traced_poles_xy a h).2.2)]
+    ∧ poles [a] "xz" h = .ok [((traced_poles_xz a h).1, (traced_poles_xz a h).2.1, some (traced_poles_xz a h).2.2)]
+    ∧ poles [a] "yx" h = .ok [((traced_poles_yx a h).1, (traced_poles_yx a h).2.1, some (traced_poles_yx a h).2.2)]
+    ∧ poles [a] "yz" h = .ok [((traced_poles_yz a h).1, (traced_poles_yz a h).2.1, some (traced_poles_yz a h).2.2)]
+    ∧ poles [a] "zx" h = .ok [((traced_poles_zx a h).1, (traced_poles_zx a h).2.1, some (traced_poles_zx a h).2.2)]
+    ∧ poles [a] "zy" h = .ok [((traced_poles_zy a h).1, (traced_poles_zy a h).2.1, some (traced_poles_zy a h).2.2)] := by
+  obtain ⟨hxy, hxz, hyx, hyz, hzx, hzy, -⟩ := ref_axes_table
+  refine ⟨?_, ?_, ?_, ?_, ?_, ?_⟩
+  · rw [poles_permuted [a] "xy" h _ _ _ hxy]; rfl
+  · rw [poles_permuted [a] "xz" h _ _ _ hxz]; rfl
+  · rw [poles_permuted [a] "yx" h _ _ _ hyx]; rfl
+  · rw [poles_permuted [a] "yz" h _ _ _ hyz]; rfl
+  · rw [poles_permuted [a] "zx" h _ _ _ hzx]; rfl
+  · rw [poles_permuted [a] "zy" h _ _ _ hzy]; rfl
 
 end ModelR.Geom
